@@ -24,5 +24,7 @@ func TestVerifWorker(t *testing.T) {
 	vkit.MainArgs(args, map[string]vkit.Check{
 		"C15": {Run: c15Run, Replay: c15Replay},
 		"C16": {Run: c16Run, Replay: c16Replay},
+		"C18": {Run: c18Run, Replay: c18Replay},
+		"C18RACE": {Run: c18RaceRun},
 	})
 }
